@@ -30,6 +30,7 @@ def run(ck, progs):
         ck.guard("C04-b MUSTPASS action protocol", lambda: c04b(ck, prog))
         ck.guard("C04-c SIBLING local fangs", lambda: c04c(ck, prog))
         ck.guard("C04-d SIBLING routing order", lambda: c04d(ck, prog))
+        ck.guard("C04-f MUSTPASS mount fangs", lambda: c04f(ck, prog))
     ck.config = None
 
 
@@ -292,3 +293,43 @@ def c04d(ck, prog):
         ck.ob(R, "final-node:proc+catch", ok, g.loc(None), "" if ok else "a final node's proc and catch are not both built from the node's fang list (%r / %r): a 404 under a mount would skip the fangs" % (srcs, hs), how="proc and catch = fangses.into_proc_with(handler | default_not_found)")
     else:
         ck.ob(R, "final-node:proc+catch", False, "", "From<base::Node> for final::Node not found")
+
+
+def c04f(ck, prog):
+    """Mounting attaches the mounted application's fang lists on every path: merge_node can only succeed through
+    merge_here (directly or through its own recursion), and merge_here appends the mounted root's fangs before anything
+    that can fail or return."""
+    R = "C04-f MUSTPASS mount fangs"
+    NODE = r"^ohkami::router::base::Node$"
+    mn, mh = prog.method(NODE, "merge_node"), prog.method(NODE, "merge_here")
+    via = [c for c in mn.calls() if c.callee in (mn.key, mh.key)]
+    n = 0
+    for bb, kind, payload in paths.ret_sites(mn):
+        if kind == "residual":
+            continue
+        n += 1
+        if kind == "call":
+            ok = payload.callee in (mn.key, mh.key)
+            ck.ob(R, "merge_node:tail@%s" % payload.name, ok, mn.loc(payload.sp), "" if ok else "merge_node returns the result of %s" % payload.callee, how="returns merge_node/merge_here(..)")
+        else:
+            ok = kind == "Ok" and any(mn.dominates(c.bb, bb) for c in via)
+            ck.ob(R, "merge_node:Ok#%d" % n, ok, mn.loc(None),
+                  "" if ok else "merge_node can report success on a path that attached nothing of the mounted application (no merge_here / recursive merge_node before this `Ok`): its fangs would not run for requests of this method under the mount prefix", how="Ok(()) only after merge_here / merge_node")
+    ck.floor(R, "merge_node return sites", n, 3)
+    af = mh.calls_to(r"base::Node::append_fangs$")
+    ok = len(af) == 1
+    if ok:
+        src = decision.describe_deep(mh, af[0].args[1], 3)
+        ok = re.search(r"arg2\.fangses$", src) is not None
+        # nothing that can return comes before it
+        early = [bb for bb, kind, payload in paths.ret_sites(mh) if not mh.dominates(af[0].bb, bb)]
+        ok = ok and not early and not [fa for fa in guards.facts_at(mh, prog, af[0].bb) if fa.kind in ("cmp", "boolcall", "boolplace")]
+        ck.ob(R, "merge_here:appends-fangs-first", ok, mh.loc(af[0].sp), "" if ok else "merge_here does not unconditionally append the mounted root's fang lists (%s) before it can return" % src, how="self.append_fangs(another_root.fangses) dominates every return, unconditionally")
+    else:
+        ck.ob(R, "merge_here:appends-fangs-first", False, mh.loc(None), "merge_here calls append_fangs %d times" % len(af))
+    # apply_fangs reaches every node: children first, then the node itself, unconditionally
+    ap = prog.method(NODE, "apply_fangs")
+    add = ap.calls_to(r"FangsList::add$")
+    rec = [c for c in ap.calls() if c.callee == ap.key]
+    ok = len(add) == 1 and len(rec) == 1 and all(ap.dominates(add[0].bb, r) for r in ap.exits()) and not [fa for fa in guards.facts_at(ap, prog, add[0].bb) if fa.kind in ("cmp", "boolcall", "boolplace") or (fa.kind == "variant" and fa.allowed == {"Some"} and "handler" in guards.describe_origin(ap, fa.steps))]
+    ck.ob(R, "apply_fangs:every-node", ok, ap.loc(None), "" if ok else "Node::apply_fangs does not add the fangs to every node of the subtree (also handler-less ones, which serve the 404s)", how="recurse into children; self.fangses.add(id, fangs) unconditionally")
